@@ -219,7 +219,7 @@ func TestVerifC11(t *testing.T) {
 				}
 				nonceV, aadV, ptV := rng.Bytes(c.nl), rng.Bytes(c.al), rng.Bytes(c.pl)
 				sealed := g.Seal(nonceV, ptV, aadV, c.tag)
-				for _, op := range []string{"Seal", "Open", "Open-forged", "Open-short"} {
+				for _, op := range []string{"Seal", "Open", "Open-forged", "Open-short", "Seal-inplace", "Open-inplace"} {
 					nonce := gs.get("nonce", nonceV, c.place)
 					aad := gs.get("aad", aadV, c.place)
 					var in []byte
@@ -234,12 +234,21 @@ func TestVerifC11(t *testing.T) {
 					case "Open-forged":
 						in = gs.get("ciphertext", flipBit(sealed, rng.Intn(len(sealed)*8)), c.place)
 						need = c.pl
+					case "Seal-inplace":
+						// one buffer of exactly len(pt)+tag bytes against the guard pages: plaintext at its start, dst = buf[:0]
+						full := gs.get("inplace", append(append([]byte{}, ptV...), make([]byte, c.tag)...), c.place)
+						in = full[:c.pl]
+					case "Open-inplace":
+						full := gs.get("inplace", sealed, c.place)
+						in = full
 					default:
 						l := rng.Intn(c.tag)
 						in = gs.get("ciphertext", sealed[:l], c.place)
 					}
 					var dst []byte
-					if c.exactDst {
+					if op == "Seal-inplace" || op == "Open-inplace" {
+						dst = in[:0]
+					} else if c.exactDst {
 						full := gs.get("dst", make([]byte, need), c.place)
 						dst = full[:0]
 					}
@@ -247,7 +256,7 @@ func TestVerifC11(t *testing.T) {
 					var out []byte
 					var oerr error
 					p, msg, isFault, addr := hk.Try(func() {
-						if op == "Seal" {
+						if op == "Seal" || op == "Seal-inplace" {
 							out = a.Seal(dst, nonce, in, aad)
 						} else {
 							out, oerr = a.Open(dst, nonce, in, aad)
@@ -262,9 +271,9 @@ func TestVerifC11(t *testing.T) {
 						r.Violation(fmt.Sprintf("gcm-out-of-range-access:%s:%s:%s", pn, op, gs.where(addr)), d)
 					case p:
 						r.Violation(fmt.Sprintf("gcm-panics:%s:%s", pn, op), d)
-					case op == "Seal" && !bytes.Equal(out, sealed):
+					case (op == "Seal" || op == "Seal-inplace") && !bytes.Equal(out, sealed):
 						r.Violation(fmt.Sprintf("gcm-wrong-result:%s:%s", pn, op), d)
-					case op == "Open" && (oerr != nil || !bytes.Equal(out, ptV)):
+					case (op == "Open" || op == "Open-inplace") && (oerr != nil || !bytes.Equal(out, ptV)):
 						d["err"] = fmt.Sprint(oerr)
 						r.Violation(fmt.Sprintf("gcm-wrong-result:%s:%s", pn, op), d)
 					case (op == "Open-forged" || op == "Open-short") && oerr == nil:
